@@ -64,7 +64,7 @@ def run(res):
         res.oblige("coq build", False, pr["broken"])
     exe = C.build_model()
     rng = random.Random(res.seed)
-    n = 6000 if res.tier == "quick" else 120000
+    n = 6000 if res.tier == "quick" else 400000
     cases = exprgen.grid(rng) + exprgen.structured(rng, n) + exprgen.malformed(rng, n // 3)
     rows = run_exprs(vh, exe, [c[0] for c in cases])
     mism, dist, errs = [], {}, 0
